@@ -140,9 +140,12 @@ def _sizes(pdk, emod, params, kw):
     ln = next((n for n in ("l", "r_length", "c_length") if hasattr(params, n)), None)
     if wn is None or ln is None:
         return ""
-    pd = __import__(pdkmod(pdk).__name__ + ".primitives.prim_dicts", fromlist=["x"])
+    try:
+        pd = __import__(pdkmod(pdk).__name__ + ".primitives.prim_dicts", fromlist=["x"])
+    except ImportError:
+        pd = None  # (a PDK without default tables)
     default = None
-    for v in vars(pd).values():
+    for v in (vars(pd).values() if pd else ()):
         if isinstance(v, dict) and emod.name in v and isinstance(v[emod.name], tuple) and len(v[emod.name]) == 2:
             default = v[emod.name]
     for given, attr, idx in ((kw.get("w"), wn, 0), (kw.get("l"), ln, 1)):
@@ -153,6 +156,17 @@ def _sizes(pdk, emod, params, kw):
         elif default is not None and got != _val(default[idx]):
             return f"{attr} = {getattr(params, attr)}, the PDK default for {emod.name} is {default[idx]}"
     return ""
+
+
+def _mult(params, kw):
+    """a given multiplier reaches the device (its `mult` or `m` parameter - the PDKs use either), whatever was compiled
+    earlier in the process"""
+    if kw.get("mult") is None:
+        return ""
+    have = {a: getattr(params, a) for a in ("mult", "m") if hasattr(params, a)}
+    if not have or any(_val(v) == _val(kw["mult"]) for v in have.values()):
+        return ""
+    return f"multiplier parameters {have} although mult = {kw['mult']} was given"
 
 
 PRIMS = {"xtors": "Mos", "ress": "PhysicalResistor", "caps": "PhysicalCapacitor", "diodes": "Diode", "bjts": "Bipolar", "vpps": "PhysicalCapacitor"}
@@ -205,7 +219,7 @@ def _model(pdk, table, idx, sized, mult):
         pkg = h.to_proto(m)
     except Exception as ex:
         return _fail(f"{pdk}.{table}[{model}]: compiled design invalid: {str(ex).splitlines()[-1][:200]}")
-    why = _device_ok(pkg) or _netlists(pkg) or _sizes(pdk, emod, of.params, kw)
+    why = _device_ok(pkg) or _netlists(pkg) or _sizes(pdk, emod, of.params, kw) or _mult(of.params, kw)
     if why:
         return _fail(f"{pdk}.{table}[{model}]: " + why)
     # compile twice = compile once; equal parameters give the same device call
@@ -218,6 +232,25 @@ def _model(pdk, table, idx, sized, mult):
     P.compile(m2)
     if m2.instances["x"].of is not of:
         return _fail(f"{pdk}.{table}[{model}]: equal parameters gave a different device call")
+    # ... and different parameters a different one: the same model again, later in the same process, with another multiplier / width
+    kw3 = dict(kw)
+    if "mult" in fields:
+        kw3["mult"] = (kw.get("mult") or 1) + 5
+    elif "w" in fields:
+        kw3["w"] = 7 * h.prefix.µ
+    else:
+        return True
+    m3 = h.Module(name="T3")
+    ports3 = {p: m3.add(h.Port(name=p)) for p in prim.ports}
+    try:
+        m3.x = prim(**kw3)(**ports3)
+        P.compile(m3)
+    except Exception:
+        return True
+    of3 = m3.instances["x"].of
+    why = _sizes(pdk, emod, of3.params, kw3) or _mult(of3.params, kw3)
+    if why:
+        return _fail(f"{pdk}.{table}[{model}] after an earlier compile of the same model: " + why)
     return True
 
 
